@@ -82,3 +82,40 @@ def support_contract(file, cls):
 
 support_contract(F_POLY, 'PolyAssignment')
 support_contract(F_DIST, 'DistAssignment')
+
+
+@contract('program/assignment/poly_assignment.py', 'PolyAssignment.__init__', ['C19', 'C08'])
+def poly_assignment_init(cx):
+    """x = p1 {q1} ... pk: the branch polynomials and probabilities are stored in the given order and number; each polynomial is rebuilt monomial by
+    monomial with float coefficients replaced by the rationals they spell -- the value of every polynomial and probability is unchanged."""
+    ISFLOAT = z3.Function('is_Float', R, B); RAT = z3.Function('float_to_rational', R, R)
+    TS, mk, (acc_c, acc_m) = tuple_sort([DR, DR])
+    MONS = z3.Function('monomials_with_constant', R, z3.SeqSort(TS))
+    polys = cx.seq('polynomials', DR); probs = cx.seq('probabilities', DR)
+    me = cx.obj('PolyAssignment', polynomials=V('opaque'), probabilities=V('opaque'))
+    cx.param(self=me, variable=cx.ref('variable'), polynomials=polys, probabilities=probs)
+    xq = z3.Real('xq'); sq = z3.Const('sq', z3.SeqSort(TS)); g = z3.Int('g'); j = z3.Int('j')
+    cx.axiom(z3.ForAll([xq], RAT(xq) == xq))          # exact conversion: the rational IS the number the literal spells (float_to_rational, C19 bounded)
+    SUMM = z3.RecFunction('sum_of_monomials', z3.SeqSort(TS), I, R)
+    z3.RecAddDefinition(SUMM, [sq, g], z3.If(g <= 0, z3.RealVal(0), SUMM(sq, g - 1) + acc_c(sq[g - 1]) * acc_m(sq[g - 1])))
+    cx.call('super', lambda ex, st, r, a, kw: V('opaque')); cx.call('__init__', lambda ex, st, r, a, kw: VNone())
+    cx.call('sympify', lambda ex, st, r, a, kw: VR(toreal(a[0]))); cx.call('expand', lambda ex, st, r, a, kw: r)
+    cx.attr('is_Float', lambda ex, st, o: VB(ISFLOAT(toreal(o))))
+    cx.call('float_to_rational', lambda ex, st, r, a, kw: VR(RAT(toreal(a[0]))), trusted='float_to_rational: Rational(str(float)) (C19 bounded)')
+
+    def get_monoms(ex, st, r, a, kw):
+        e = toreal(a[0])
+        st.pc.append(e == SUMM(MONS(e), z3.Length(MONS(e))))
+        return V('seq', MONS(e), ek=DTuple(DR, DR))
+    cx.call('get_monoms', get_monoms, trusted='get_monoms(expanded polynomial, with_constant=True): (coefficient, monomial) pairs whose products add up to the polynomial')
+    cx.set_hook('empty_kinds', {'self.polynomials': DSeq(DR), 'self.probabilities': DSeq(DR)})
+    cx.set_hook('obj_havoc_fields', ['polynomials', 'probabilities'])
+
+    def fld(st, name): return st.heap[me.t][name]
+    same = lambda sq_, src, upto: z3.And(z3.Length(sq_) == upto, z3.ForAll([j], z3.Implies(z3.And(0 <= j, j < upto), sq_[j] == src[j])))
+    cx.invariant(0, lambda st: same(fld(st, 'polynomials').t, polys.t, st['$i0'].t))
+    cx.invariant(1, lambda st: z3.And(same(fld(st, 'polynomials').t, polys.t, st['$i0'].t), toreal(st['term']) == SUMM(st['monoms'].t, st['$i1'].t),
+                                      st['monoms'].t == MONS(toreal(st['expanded_poly'])), toreal(st['expanded_poly']) == polys.t[st['$i0'].t],
+                                      toreal(st['expanded_poly']) == SUMM(st['monoms'].t, z3.Length(st['monoms'].t))))
+    cx.invariant(2, lambda st: z3.And(same(fld(st, 'polynomials').t, polys.t, z3.Length(polys.t)), same(fld(st, 'probabilities').t, probs.t, st['$i2'].t)))
+    cx.ensures(lambda st, r: z3.And(same(fld(st, 'polynomials').t, polys.t, z3.Length(polys.t)), same(fld(st, 'probabilities').t, probs.t, z3.Length(probs.t))))
